@@ -40,6 +40,9 @@ CHECKS = {
  "C03": ("shadow-model monitor (alias forest, independent set, constraint predicates) of alias/unalias/bulk-alias/update/copy/assign/rename histories, exhaustive short alias sequences, watchdog for bulk aliasing; " + SAN,
          "Test double over AbstractParameterAliasable with 2..6 parameters; after every call all values, the independent list (names and object identity, write-through probe), getAliases/getAlias/getFrom, the intersected constraints of both ends of each link, refusal of double aliasing and cycles of any length (state unchanged), and the mutual independence of original and copy are compared with the model; bulk aliasing from a map in every key order must return or raise within the chunk watchdog.",
          "6/C03"),
+ "C04": ("differential monitor against exact int64 triple-loop references (integer entries) and long-double references with rounding bounds (real entries) for every routine x every combination of the three storage classes, brute force over all permutations for the assignment solver; " + SAN,
+         "Every MatrixTools routine of the statement (products incl. diagonal/tridiagonal/complex, add, scaled add, scale, transpose, copy, pow, Taylor, Kronecker x3, Hadamard x3, direct sums, covariance, extrema, sums, fills/diagonals, shifts) for shapes 0x0..7x7 incl. 1xn/nx1/non-square, results unsized and wrongly pre-sized, all RowMatrix/ColMatrix/LinearMatrix combinations; non-conformable operands must raise DimensionException and never abort; lap(): exhaustive for n<=3 over {0,1,2} and random to 7x7 with ties/negative costs: permutation, inverse, optimal cost vs all n! permutations, dual feasibility and complementary slackness, termination.",
+         "6/C04"),
  "C07": ("differential monitor against exact integer (__int128) and long-double references, identity checks for the log-domain family, exhaustive edge table for empty/length-one/mismatched operands; " + SAN,
          "Every function family named in the statement on vectors of length 0..64 (small integers: exact; reals: rounding bound n*eps*sum|terms|), pairs of equal and unequal length with the documented exception or at least no abort, log-domain identities (shift equivariance, max <= lse <= max+log n, finiteness, logsum of two log-zeros), FDR against the Benjamini-Hochberg formula.",
          "6/C07"),
